@@ -159,7 +159,7 @@ class CGen:
         for r, ty in regty.items():
             if r in pnames: continue
             o.append('  %s %s;' % (s.ctype(ty), rn(r)))
-        nal = 0
+        nal = 0; nbr = [0]; phitmp = {}; cdecl = []
         for ty, nm, bv in F.params:
             if bv is not None:
                 o.append('  %s bv_%s = *%s; %s = &bv_%s;' % (s.ctype(bv), rn(nm), rn(nm), rn(nm), rn(nm)))
@@ -178,7 +178,24 @@ class CGen:
         def wide(e, ty):
             b, w = width(ty)
             return e if w >= 32 else '((uint32_t)%s)' % e
+        # emit blocks in reverse post-order so that textually backward gotos are exactly the CFG back edges
+        succ = {}
         for b in F.order:
+            t = F.blocks[b][-1] if F.blocks[b] else None; ss = []
+            if t is not None:
+                if t.op == 'jmp': ss = [t.to]
+                elif t.op == 'br': ss = [t.t, t.f]
+                elif t.op == 'switch': ss = [l for _, l in t.cases] + [t.default]
+                elif t.op == 'call' and t.normal is not None: ss = [t.normal]
+            succ[b] = ss
+        post = []; seen_b = set(); stack = [(F.entry, iter(succ[F.entry]))]; seen_b.add(F.entry)
+        while stack:
+            b0, it = stack[-1]
+            for nx in it:
+                if nx not in seen_b: seen_b.add(nx); stack.append((nx, iter(succ[nx]))); break
+            else: post.append(b0); stack.pop()
+        rpo = post[::-1]; rpo_idx = {b_: k for k, b_ in enumerate(rpo)}
+        for b in rpo:
             o.append(' L_%s: ;' % cid(b))
             for i in F.blocks[b]:
                 op = i.op; d = rn(i.dest) if i.dest else None
@@ -250,11 +267,25 @@ class CGen:
                             for (v, l) in pi.inc:
                                 if l == b: cps.append((rn(pi.dest), V(v, pi.ty), s.ctype(pi.ty))); break
                         if not cps: return 'goto L_%s;' % cid(to)
-                        tmp = ' '.join('%s t_%s = %s;' % (ct, dn, vv) for dn, vv, ct in cps)
+                        for dn, vv, ct in cps:
+                            if dn not in phitmp: phitmp[dn] = ct
+                        tmp = ' '.join('t_%s = %s;' % (dn, vv) for dn, vv, ct in cps)
                         asg = ' '.join('%s = t_%s;' % (dn, dn) for dn, vv, ct in cps)
                         return '{ %s %s goto L_%s; }' % (tmp, asg, cid(to))
                     if op == 'jmp': o.append('  ' + edge(i.to))
-                    elif op == 'br': o.append('  if (%s) %s else %s' % (V(i.c, IntT(1)), edge(i.t), edge(i.f)))
+                    elif op == 'br':
+                        # keep the BACKWARD jump conditional: cbmc resets a loop's unwind counter only when a backward goto is not taken
+                        def split(to):
+                            e_ = edge(to)
+                            if e_.startswith('{'): return e_[1:e_.rindex('goto')], 'goto L_%s;' % cid(to)
+                            return '', e_
+                        ct, gt = split(i.t); cf_, gf = split(i.f)
+                        bi = rpo_idx[b]; tb = rpo_idx[i.t] <= bi; fb = rpo_idx[i.f] <= bi
+                        nbr[0] += 1; cn = 'c_%d' % nbr[0]
+                        cdecl.append(cn)
+                        o.append('  %s = %s; if (%s) { %s } else { %s }' % (cn, V(i.c, IntT(1)), cn, ct, cf_))
+                        if fb and not tb: o.append('    if (!%s) %s %s' % (cn, gf, gt))
+                        else: o.append('    if (%s) %s %s' % (cn, gt, gf))
                     else:
                         o.append('  switch (%s) {' % V(i.v, i.ty))
                         bits = m.resolve(i.ty).bits
@@ -295,7 +326,13 @@ class CGen:
                         ty = i.args[0][0]; e = '(%s < 0 ? (%s)(0 - %s) : %s)' % (sx(args[0], ty), s.ctype(ty), args[0], args[0])
                     elif nm.startswith('@llvm.umul.with.overflow'):
                         s.helpers.add('umulo'); e = 'verif_umulo(%s, %s)' % tuple(args)
-                    elif nm.startswith('@llvm.ctlz') or nm.startswith('@llvm.cttz') or nm.startswith('@llvm.ctpop') or nm.startswith('@llvm.fsh') or nm.startswith('@llvm.bswap'):
+                    elif nm.startswith('@llvm.ctpop.'):
+                        ty = i.args[0][0]; e = '(%s)__builtin_popcountll((unsigned long long)%s)' % (s.ctype(ty), args[0])
+                    elif nm.startswith('@llvm.ctlz.') or nm.startswith('@llvm.cttz.'):
+                        ty = i.args[0][0]; b_, w_ = width(ty)
+                        if 'ctlz' in nm: e = '(%s)(%s == 0 ? %d : __builtin_clzll((unsigned long long)%s) - %d)' % (s.ctype(ty), args[0], b_, args[0], 64 - b_)
+                        else: e = '(%s)(%s == 0 ? %d : __builtin_ctzll((unsigned long long)%s))' % (s.ctype(ty), args[0], b_, args[0])
+                    elif nm.startswith('@llvm.fsh') or nm.startswith('@llvm.bswap'):
                         raise Unencodable('intrinsic %s in %s' % (nm, fname))
                     elif nm in ('@_Znwm', '@_Znam'): e = 'verif_malloc(%s)' % args[0]
                     elif nm in ('@_ZdlPv', '@_ZdaPv'): e = 'free(%s)' % args[0]
@@ -338,6 +375,8 @@ class CGen:
                     o.append('  %s = %s;' % (acc, V(i.v, i.vt)))
                 else: raise Exception('emit %s' % op)
         o.append('}')
+        for dn, ct in phitmp.items(): o.insert(1, '  %s t_%s;' % (ct, dn))
+        if cdecl: o.insert(1, '  unsigned char %s;' % ', '.join(cdecl))
         return '\n'.join(o)
     def allowed_external(s, f):
         n = f[1:]
@@ -373,7 +412,7 @@ class CGen:
         for f in sorted(ext):
             n = f[1:]
             if f.startswith('@llvm.') or f in ('@_Znwm', '@_Znam', '@_ZdlPv', '@_ZdaPv') or f not in s.m.decl_lines: continue
-            if n.startswith('__CPROVER') or f in LIBM or f in ('@memcpy', '@memset', '@memmove', '@memcmp', '@strlen', '@abort', '@free', '@malloc') or f == '@__verif_check': continue
+            if n.startswith('__CPROVER') or f in LIBM or f in ('@memcpy', '@memset', '@memmove', '@memcmp', '@strlen', '@abort', '@free', '@malloc') or f in ('@__verif_check', '@__verif_error_hook', '@__verif_fork_u') or f in s.allow_ext: continue
             rt = ret_type(s.m, f); pts = [s.ctype(t) for t in decl_param_types(s.m, f)]
             protos.append('%s %s(%s);' % (s.ctype(rt), cid(f), ', '.join(pts) or 'void'))
         gl = []
@@ -392,6 +431,13 @@ class CGen:
                '#ifndef __CPROVER__', '#include "native_prelude.h"', '#endif',
                'static void *verif_malloc(size_t n){ void *p = malloc(n); __CPROVER_assume(p != 0); return p; }']
         nd = ['uint64_t verif_nd_log; double verif_nd_logd;']
+        if '@__verif_fork_u' in ext: nd.append('#ifdef __CPROVER__\nunsigned long nondet_ulong(void); unsigned long __verif_fork_u(unsigned long lo, unsigned long hi){ unsigned long v = nondet_ulong(); verif_nd_log = v; __CPROVER_assume(v >= lo && v <= hi); return v; }\n#else\nunsigned long __verif_fork_u(unsigned long lo, unsigned long hi);\n#endif')
+        if '@__verif_error_hook' in ext: nd.append('#ifdef __CPROVER__\nvoid __verif_error_hook(void){}\n#else\nvoid __verif_error_hook(void);\n#endif')
+        for f in sorted(s.allow_ext):
+            if f in ext and f in s.m.decl_lines:
+                rt = ret_type(s.m, f); pts = [s.ctype(t) for t in decl_param_types(s.m, f)]
+                body = '' if isinstance(rt, VoidT) else '%s r; return r;' % s.ctype(rt)
+                nd.append('%s %s(%s){ %s } /* stated nondeterministic stub */' % (s.ctype(rt), cid(f), ', '.join('%s a%d' % (t, k) for k, t in enumerate(pts)) or 'void', body))
         for f in sorted(s.nondets):
             rt = ret_type(s.m, f); ct = s.ctype(rt)
             nd.append('%s %s(void); static %s verif_nd_%s(void){ %s v = %s(); %s = v; return v; }' % (ct, cid(f), ct, cid(f), ct, cid(f), 'verif_nd_logd' if isinstance(s.m.resolve(rt), DblT) else 'verif_nd_log'))
